@@ -103,6 +103,7 @@ package engine
 //@   modifies en.st, en.ca
 // a state object supplied by the client or the persister is a well-formed State
 //@   ensures en.st != nil ==> state.flagsOk(en.st) && allocated(en.st)
+//@   ensures en.ca != nil ==> vm.memOk(en.ca) && vm.memWf(en.ca)
 
 // ensureState: a new State with the configured flag count, or the supplied one; the configured
 // language is selected (and LANG raised, so that the VM puts it into the context) when none is set (C18)
@@ -116,10 +117,12 @@ package engine
 //@   ensures[C18] @cfglang isoKnown(en.cfg.Language) && (old(en.st) == nil || old(en.st.Language) == nil) ==> en.st.Language != nil
 //@     && en.st.Language.Code == isoPart3(en.cfg.Language) && state.flag(en.st, state.FLAG_LANG)
 //@   ensures[C18] @keeps old(en.st) != nil && old(en.st.Language) != nil ==> en.st.Language == old(en.st.Language)
+// ensureMemory: a new cache with the configured capacity, or the supplied one
 //@ func (*DefaultEngine).ensureMemory
-//@   assumed
-//@   requires en != nil
+//@   requires en != nil && (en.ca != nil ==> vm.memOk(en.ca) && vm.memWf(en.ca))
 //@   modifies en.ca
+//@   ensures @mem result == nil ==> vm.memOk(en.ca) && vm.memWf(en.ca) && (old(en.ca) != nil ==> en.ca == old(en.ca))
+//@   ensures @new old(en.ca) == nil ==> result == nil && vm.levels(en.ca) == 1 && vm.cac(en.ca).CacheSize == en.cfg.CacheSize
 //@ func (*DefaultEngine).ensurePersist
 //@   assumed
 //@   requires en != nil
